@@ -305,6 +305,10 @@ def gen_case(tape, tier):
             # the caller keeps its request objects and uses the very same dicts again on a data set whose
             # partitioned axes are one longer: -1 must then mean the new last element
             case["reuse_on_longer"] = True
+        if tape.coin(0.25, "dying-part"):
+            # the process that runs one of the parts dies at a file-system event; the same request is then made again by a
+            # fresh process (what a scheduler does with a failed job) before the remaining parts run
+            case["dying_part"] = {"index": tape.choose(len(parts), "which-part"), "at": 2 + tape.choose(40, "crash-at")}
         return case
     # with split_independent_axes pipefunc chooses the axes itself; it is asked for only where no root axis is
     # reduced anywhere, so that a refusal cannot be a legitimate "reduced axis" rejection
@@ -350,11 +354,21 @@ def simplify(case):
                     del c["repeat_part"]
                 elif rp > i:
                     c["repeat_part"] = rp - 1
+            dp = c.get("dying_part")
+            if dp is not None:
+                if dp["index"] == i:
+                    del c["dying_part"]
+                elif dp["index"] > i:
+                    dp["index"] -= 1
             yield c
     if case["family"] == "parts":
         if case.get("repeat_part") is not None:
             c = copy.deepcopy(case)
             del c["repeat_part"]
+            yield c
+        if case.get("dying_part") is not None:
+            c = copy.deepcopy(case)
+            del c["dying_part"]
             yield c
         if case.get("cache_type"):
             c = copy.deepcopy(case)
@@ -608,7 +622,9 @@ def _run_parts(case, w, ref, folder, process, V, probes, w_full=None):
     last_pipeline = [None]
     requests = [_fx(part) for part in case["parts"]]  # the caller's own request objects
     for pi, part in enumerate(case["parts"]):
-        def go(sim, part=part, pi=pi):
+        def go(sim, part=part, pi=pi, crash_at=None):
+            if crash_at is not None:
+                sim.fs.crash_at = sim.fs.n + crash_at
             if case.get("cache_type"):
                 # a process-local cache: the object outlives the simulated process that created it (a shared one would
                 # hold proxies of that process's manager)
@@ -628,6 +644,14 @@ def _run_parts(case, w, ref, folder, process, V, probes, w_full=None):
                     masks[o] = np.asarray(np.ma.getdata(st.mask)).astype(bool)
             return masks, {o: canon(res[o].output) for o in all_outputs(w) if o in res}
 
+        dying = case.get("dying_part")
+        if dying and dying["index"] == pi:
+            _r, err0, _sim0 = process(lambda s_: go(s_, crash_at=dying["at"]), preempt=cfg["preempt"])
+            if isinstance(err0, SimCrash):
+                probes["part_process_died"] = 1  # (what that attempt computed is not held against the attempt that follows)
+            elif err0 is not None:
+                V("parts", f"part-raised:{type(err0).__name__}", {"part": part, "index": pi, "exc": repr(err0)[:300]}, {"frame": _frame(err0)})
+                return
         got_go, err, sim = process(go, preempt=cfg["preempt"])
         if err is not None:
             V("parts", f"part-raised:{type(err).__name__}", {"part": part, "index": pi, "exc": repr(err)[:300]}, {"frame": _frame(err)})
